@@ -148,7 +148,7 @@ tp_task_tpt_get(tp_task_p tptask) {
 void
 tp_task_tpt_set(tp_task_p tptask, tpt_p tpt) {
 	
-	if (NULL == tptask && NULL != tpt)
+	if (NULL == tptask || NULL == tpt)
 		return;
 	tptask->tpt = tpt;
 }
@@ -329,6 +329,14 @@ tp_task_start_ex(int shedule_first_io, tp_task_p tptask, uint16_t event,
 
 	if (NULL == tptask || NULL == cb_func)
 		return (EINVAL);
+	/* Transfer handlers: buf is io_buf_p, validate window on any start
+	 * path and before task is changed (no wrap: offset + transfer_size). */
+	if (NULL != buf &&
+	    (tp_task_sr_handler == tptask->tp_data.cb_func ||
+	     tp_task_rw_handler == tptask->tp_data.cb_func) &&
+	    (buf->offset > buf->size ||
+	     IO_BUF_TR_SIZE_GET(buf) > (buf->size - buf->offset)))
+		return (EINVAL);
 	//tptask->tp_data.cb_func = tp_task_handler;
 	//tptask->tp_data.ident = ident;
 	tptask->event = event;
@@ -354,9 +362,7 @@ tp_task_start_ex(int shedule_first_io, tp_task_p tptask, uint16_t event,
 	/* Now we shure that buf point to io_buf_p, do additional checks. */
 	if (0 == IO_BUF_TR_SIZE_GET(buf))
 		goto shedule_io;
-	/* Validate buf. */
-	if ((buf->offset + IO_BUF_TR_SIZE_GET(buf)) > buf->size)
-		return (EINVAL);
+	/* buf window validated above. */
 	ev.event = event;
 	ev.flags = 0;
 	ev.fflags = 0;
